@@ -647,6 +647,43 @@ def exhaustive_job(job):
             'samples': rec.extra.get('accepted_not_wellformed_samples', [])}
 
 
+COVERAGE_CARDS = [
+    '1 0 -1 2', '12 3 -2.7 #5 (1:-2)imp:n=1 u=2', '7 4 1.0E-3(1:2) 3 u=2',
+    '5 0 #(1) *fill=4 (1 0 0)', '5 0', '5a 0 1', '9 2 (1 2)', '  3 00  -1  ',
+]
+
+
+def coverage_phase(res):
+    '''the hand-written corpora (expressions, known-finding texts, cell
+    tables incl. lattice cells, cell cards) under a line tracer restricted to
+    the anchored functions: every line inside the property's input language
+    must be executed'''
+    import c11_cov
+    cov = c11_cov.LineCov(c11_cov.anchored_functions())
+    with cov:
+        for text, _ in CORPUS + CORPUS_KNOWN:
+            impl_get_ast(text)
+        for texts, lat, target, _ in TABLE_CORPUS:
+            impl_complement(texts, set(lat), target)
+            impl_loop_abort(texts, set(lat))
+        impl_complement({1: '1', 2: '#9'}, set(), 2)          # KeyError
+        for card in COVERAGE_CARDS:
+            impl_split(card)
+    total, missing = cov.missing(c11_cov.UNREACHABLE)
+    res.obligation(f'coverage: the corpora execute every line of the anchored '
+                   f'functions inside the input language ({total} lines of '
+                   f'{len(cov.codes)} code objects)', not missing,
+                   f'never executed: {missing[:6]}')
+    res.extra['anchored_lines'] = total
+    if missing:
+        res.violation('harness-error',
+                      'the corpora no longer reach these lines of the '
+                      f'anchored code: {missing[:8]}',
+                      {'theorem_or_correspondence': 'coverage',
+                       'input': {'lines': [list(m) for m in missing[:20]]}},
+                      found_input=False)
+
+
 def wellformed(res, ref, text, out, origin):
     '''arbitrary text: when the independent reader (c11_refparse, written
     from the manual) finds an expression, the property is checked on it; a
@@ -709,6 +746,7 @@ def run(res, tier, seed, proofs_ok):
                           f'{out[1]}',
                           {'input': {'text': text}, 'observed': out},
                           found_input=True)
+    coverage_phase(res)
     timings['corpus'] = time.time() - t0
 
     # ---- 2. exhaustive parse tie by fingerprints -------------------------
@@ -944,6 +982,9 @@ TABLE_CORPUS = [
      ('*', ('*raw', L(-7, 1), L(7, 1)), L(9))),
     ({5: '(+4.3:1) -8', 6: '1:#5'}, (5,), 6,
      (':', L(1), ('*raw', L(4, 3), L(-4, 3)))),
+    # a lattice cell that is a single surface; one that complements a cell
+    ({5: '7.2', 6: '#5 1'}, (5,), 6, ('*', ('*raw', L(7, 2), L(-7, 2)), L(1))),
+    ({3: '1', 5: '-2 #3', 6: '#5'}, (5,), 6, ('*raw', L(-2), L(2))),
 ]
 
 
@@ -1146,6 +1187,19 @@ def impl_split(card):
         return ('err', 'EValue')
 
 
+# cell cards with the (geometry, options) the card format prescribes,
+# hand-written; one per card shape a mutation was once missed on
+CARD_CORPUS = [
+    ('1 0 -1 2', (' -1 2', '')),
+    ('1 0 -1 2 imp:n=1', (' -1 2 ', 'imp:n=1')),
+    ('12 3 -2.7 #5 (1:-2)imp:n=1 u=2', (' #5 (1:-2)', 'imp:n=1 u=2')),
+    ('7 4 1.0E-3(1:2) 3 u=2', ('(1:2) 3 ', 'u=2')),        # M19
+    ('3 00 -1 u=2', (' -1 ', 'u=2')),                       # M21
+    ('5 0 #(1) *fill=4 (1 0 0)', (' #(1) ', '*fill=4 (1 0 0)')),
+    (' 8 2 6.02e-2 1:#3 VOL=1', (' 1:#3 ', 'VOL=1')),
+]
+
+
 def run_split(res, rng, texts):
     '''cellcard.split: sweep (the geometry part of a card parses like the
     expression, options intact) and tie with Model.split_card (geometry and
@@ -1165,6 +1219,17 @@ def run_split(res, rng, texts):
         res.count('split-tie:' + (got[0] if got[0] == 'ok' else got[1]))
 
     seen_cards = set()
+    for card, want in CARD_CORPUS:
+        tie(card)
+        got = impl_split(card)
+        res.seen(card)
+        if got != ('ok',) + want:
+            n_bad += 1
+            res.violation('impl-violation',
+                          f'cell card {card!r} should split into {want}, '
+                          f'implementation gives {got}',
+                          {'input': {'card': card}, 'expected': want,
+                           'observed': got}, found_input=True)
     for text in texts:
         if not text.strip():
             continue
